@@ -65,6 +65,9 @@ type teeReadCloser struct {
 	// werr is the first error returned by w. Once set nothing more is written
 	// to w, but reading from r continues.
 	werr error
+
+	// rerr is the first error other than io.EOF returned by r.
+	rerr error
 }
 
 // TeeReadCloser constructs a teeReadCloser from the passed reader and writer.
@@ -88,6 +91,9 @@ func (t *teeReadCloser) Read(b []byte) (int, error) {
 			t.werr = werr
 		}
 	}
+	if err != nil && err != io.EOF && t.rerr == nil { //nolint:errorlint // Readers return io.EOF itself.
+		t.rerr = err
+	}
 	return n, err
 }
 
@@ -96,6 +102,12 @@ func (t *teeReadCloser) Close() error {
 	if err := t.r.Close(); err != nil {
 		_ = t.w.Close()
 		return err
+	}
+	// If the source broke off midway the writer has only been given part of
+	// the stream. Tell its consumer, if we can, rather than letting it take a
+	// clean close for the end of a complete stream.
+	if cw, ok := t.w.(interface{ CloseWithError(err error) error }); ok && t.rerr != nil {
+		return cw.CloseWithError(t.rerr)
 	}
 	return t.w.Close()
 }
